@@ -196,14 +196,43 @@ type Variant struct {
 	Table  string // "oj" | "gen": which model tables it corresponds to
 	Reader bool
 	Values bool
-	Run    func(in []byte, chunks []int, multi bool) Outcome
+	Run    func(in []byte, chunks []int, multi bool, rec *[]int) Outcome
 }
 
-func rd(in []byte, chunks []int) io.Reader {
-	if chunks == nil {
-		return bytes.NewReader(in)
+// Opts are the model flags of the variant: r = reader entry point, f = parser integer fast loop.
+func (v *Variant) Opts() string {
+	o := ""
+	if v.Reader {
+		o += "r"
 	}
-	return &chunkReader{data: append([]byte{}, in...), chunks: chunks}
+	if strings.HasPrefix(v.Name, "oj.Parse") || strings.HasPrefix(v.Name, "gen.Parser") {
+		o += "f"
+	}
+	if o == "" {
+		o = "-"
+	}
+	return o
+}
+
+// recReader records the size of every Read result so that the model can be given the same buffers.
+type recReader struct {
+	r    io.Reader
+	got  *[]int
+}
+
+func (r *recReader) Read(p []byte) (int, error) {
+	n, err := r.r.Read(p)
+	if n > 0 {
+		*r.got = append(*r.got, n)
+	}
+	return n, err
+}
+
+func rd(in []byte, chunks []int, got *[]int) io.Reader {
+	if chunks == nil {
+		return &recReader{bytes.NewReader(in), got}
+	}
+	return &recReader{&chunkReader{data: append([]byte{}, in...), chunks: chunks}, got}
 }
 
 func finishTrees(docs []string, multi bool, err error) Outcome {
@@ -220,7 +249,7 @@ func finishTrees(docs []string, multi bool, err error) Outcome {
 }
 
 var variants = []Variant{
-	{"oj.Parse", "oj", false, true, func(in []byte, _ []int, multi bool) Outcome {
+	{"oj.Parse", "oj", false, true, func(in []byte, _ []int, multi bool, _ *[]int) Outcome {
 		return guard(func() Outcome {
 			var p oj.Parser
 			if multi {
@@ -235,22 +264,22 @@ var variants = []Variant{
 			return Outcome{OK: true, Tree: renderSingle(v, in)}
 		})
 	}},
-	{"oj.ParseReader", "oj", true, true, func(in []byte, chunks []int, multi bool) Outcome {
+	{"oj.ParseReader", "oj", true, true, func(in []byte, chunks []int, multi bool, rec *[]int) Outcome {
 		return guard(func() Outcome {
 			var p oj.Parser
 			if multi {
 				var c treeCollector
-				_, err := p.ParseReader(rd(in, chunks), func(v any) { c.add(v) })
+				_, err := p.ParseReader(rd(in, chunks, rec), func(v any) { c.add(v) })
 				return finishTrees(c.docs, true, err)
 			}
-			v, err := p.ParseReader(rd(in, chunks))
+			v, err := p.ParseReader(rd(in, chunks, rec))
 			if err != nil {
 				return fromErr(err)
 			}
 			return Outcome{OK: true, Tree: renderSingle(v, in)}
 		})
 	}},
-	{"oj.Validate", "oj", false, false, func(in []byte, _ []int, multi bool) Outcome {
+	{"oj.Validate", "oj", false, false, func(in []byte, _ []int, multi bool, _ *[]int) Outcome {
 		return guard(func() Outcome {
 			p := oj.Validator{OnlyOne: !multi}
 			if err := p.Validate(in); err != nil {
@@ -259,16 +288,16 @@ var variants = []Variant{
 			return Outcome{OK: true}
 		})
 	}},
-	{"oj.ValidateReader", "oj", true, false, func(in []byte, chunks []int, multi bool) Outcome {
+	{"oj.ValidateReader", "oj", true, false, func(in []byte, chunks []int, multi bool, rec *[]int) Outcome {
 		return guard(func() Outcome {
 			p := oj.Validator{OnlyOne: !multi}
-			if err := p.ValidateReader(rd(in, chunks)); err != nil {
+			if err := p.ValidateReader(rd(in, chunks, rec)); err != nil {
 				return fromErr(err)
 			}
 			return Outcome{OK: true}
 		})
 	}},
-	{"oj.Tokenizer.Parse+Builder", "oj", false, true, func(in []byte, _ []int, multi bool) Outcome {
+	{"oj.Tokenizer.Parse+Builder", "oj", false, true, func(in []byte, _ []int, multi bool, _ *[]int) Outcome {
 		return guard(func() Outcome {
 			var t oj.Tokenizer
 			t.OnlyOne = !multi
@@ -280,19 +309,19 @@ var variants = []Variant{
 			return finishTrees(h.docs, multi, err)
 		})
 	}},
-	{"oj.Tokenizer.Load+Builder", "oj", true, true, func(in []byte, chunks []int, multi bool) Outcome {
+	{"oj.Tokenizer.Load+Builder", "oj", true, true, func(in []byte, chunks []int, multi bool, rec *[]int) Outcome {
 		return guard(func() Outcome {
 			var t oj.Tokenizer
 			t.OnlyOne = !multi
 			h := &buildHandler{}
-			err := t.Load(rd(in, chunks), h)
+			err := t.Load(rd(in, chunks, rec), h)
 			if err == nil && h.err != nil {
 				return Outcome{Panic: "builder:" + strings.ReplaceAll(h.err.Error(), " ", "_")}
 			}
 			return finishTrees(h.docs, multi, err)
 		})
 	}},
-	{"gen.Parser.Parse", "gen", false, true, func(in []byte, _ []int, multi bool) Outcome {
+	{"gen.Parser.Parse", "gen", false, true, func(in []byte, _ []int, multi bool, _ *[]int) Outcome {
 		return guard(func() Outcome {
 			var p gen.Parser
 			if multi {
@@ -307,15 +336,15 @@ var variants = []Variant{
 			return Outcome{OK: true, Tree: renderSingle(v, in)}
 		})
 	}},
-	{"gen.Parser.ParseReader", "gen", true, true, func(in []byte, chunks []int, multi bool) Outcome {
+	{"gen.Parser.ParseReader", "gen", true, true, func(in []byte, chunks []int, multi bool, rec *[]int) Outcome {
 		return guard(func() Outcome {
 			var p gen.Parser
 			if multi {
 				var c treeCollector
-				_, err := p.ParseReader(rd(in, chunks), func(v gen.Node) bool { c.add(v); return false })
+				_, err := p.ParseReader(rd(in, chunks, rec), func(v gen.Node) bool { c.add(v); return false })
 				return finishTrees(c.docs, true, err)
 			}
-			v, err := p.ParseReader(rd(in, chunks))
+			v, err := p.ParseReader(rd(in, chunks, rec))
 			if err != nil {
 				return fromErr(err)
 			}
